@@ -150,6 +150,9 @@ impl Prop for C13 {
             "trusted base: refs/geom.rs (i128 cross products), unit-tested".into(),
         ]
     }
+    fn miri_gen(&self) -> Option<&'static str> {
+        Some("paths-interleaved")
+    }
     fn plan(&self, tier: Tier) -> Vec<GenSpec> {
         let mut v = vec![
             GenSpec::enumerated("rects-grid", 16),
